@@ -1,10 +1,21 @@
 (* C01 - trash-put conserves data: each argument ends fully trashed or untouched.
-   FULL STATEMENT (not proved in Coq: it speaks about the file system, for which this development has no
-   model; the check's oracle decides it on the real command over generated spellings x kinds x layouts):
+   FULL STATEMENT (decided on the real command by the check's oracle over generated spellings x kinds x layouts):
      for every well-formed file system w, argument list and option set, after trash-put each argument's
      subtree is EITHER byte-identical under files/N of exactly one trash directory, next to N.trashinfo,
      and absent from its origin, OR identical at its origin with nothing new for it in any trash directory.
-   PROVED HERE, against every answer of the environment (the protocol that makes the dichotomy possible):
+   PROVED HERE ON THE FILE-SYSTEM MODEL (World.effect; every tree-shaped file system, every answer, every fault, every
+   prefix of the run = every crash point at library-call granularity):
+   (w1) put_destroys_nothing: whatever existed before the run and is not at or below an entry the run moves into the
+        trash keeps exactly what it held (kind and content) - in particular an argument that is NOT moved is untouched,
+        and so is everything already in any trash directory; the one exception is the stated one of C04 (a symbolic
+        link that a move goes onto: the dangling orphan payload);
+   (w2) put_keeps_what_it_trashed: when a move returns, the tree that was at the source is at the destination node by
+        node, and from then on the payload and its .trashinfo (and everything else that exists) stay as they are unless
+        a later move of the same run takes them away;
+   together with C05's put_payload_always_has_info (the payload sits next to its complete .trashinfo) and C04's
+   put_never_moves_onto_something these are the two halves of the dichotomy, at library-call granularity; what is not
+   modelled: the inside of one shutil.move (copy + delete across file systems: known finding C17), modes and mtimes.
+   PROVED ALSO, against every answer of the environment (the protocol that makes the dichotomy possible):
    (a) untouched_arguments: no mutating operation is issued for an argument whose last component is '.' or
        '..' (any number of trailing slashes; /repo fix 19607fc), nor for one that os.path.lexists reports
        absent (with or without -f), nor after a reply to -i that is not a yes, nor on end of input; and never
@@ -15,7 +26,8 @@
        info is complete and parseable before the Move; the Move goes to the payload path of that info.
    Known finding (kept in known_findings.json): 'link/../x' with link a symlink to a directory elsewhere -
    existence and volume use the physical parent, location and move use lexical normpath. *)
-From TV Require Import Prelude.Str Prelude.PosixPath Prog.Prog Cmd.Put Proofs.ProgProofs Proofs.PutSafe Proofs.PutProofs Proofs.PutMore.
+From TV Require Import Prelude.Str Prelude.PosixPath Prog.Prog World.World Cmd.Put Proofs.ProgProofs Proofs.PutSafe Proofs.PutProofs Proofs.PutMore
+  Proofs.WorldProofs Proofs.WorldPut Proofs.WorldPut3 Proofs.WorldExamples.
 Open Scope N_scope.
 
 Theorem untouched_arguments : forall o path,
@@ -52,6 +64,43 @@ Theorem put_reports_honestly : forall o,
               end) (put_main o).
 Proof. exact put_discipline_lemma. Qed.
 Print Assumptions put_reports_honestly.
+
+(* (w1) trash-put destroys nothing *)
+Theorem put_destroys_nothing : forall o,
+  all_runs (fun t _ => forall s, wf (wfs s) -> wfd s = None ->
+     forall t1 t2 s1, t = t1 ++ t2 -> wrun s t1 s1 ->
+     forall q, wfs s q <> None ->
+       (forall src dst, In (Move src dst, RUnit) t -> under src q = false /\ (q = dst -> wfs s q <> Some NLink)) ->
+       wfs s1 q = wfs s q) (put_main o).
+Proof. exact put_destroys_nothing_lemma. Qed.
+Print Assumptions put_destroys_nothing.
+
+(* (w2) what was trashed arrives whole and stays *)
+Theorem put_keeps_what_it_trashed : forall o,
+  all_runs (fun t _ => forall s, wf (wfs s) -> wfd s = None ->
+     forall t1 src dst t2 t3 s1 s2 s3, t = t1 ++ (Move src dst, RUnit) :: t2 ++ t3 ->
+       wrun s t1 s1 -> wstep s1 (Move src dst) RUnit s2 -> wrun s2 t2 s3 ->
+       (wfs s1 dst = None -> forall rest, rest = [] \/ (exists r, rest = c_slash :: r) -> wfs s2 (dst ++ rest) = wfs s1 (src ++ rest)) /\
+       forall q, wfs s2 q <> None ->
+         (forall src' dst', In (Move src' dst', RUnit) t2 -> under src' q = false /\ (q = dst' -> wfs s2 q <> Some NLink)) ->
+         wfs s3 q = wfs s2 q) (put_main o).
+Proof. exact put_keeps_what_it_trashed_lemma. Qed.
+Print Assumptions put_keeps_what_it_trashed.
+
+(* the premises are met by a real case (WorldExamples: a tree with a trash directory, a complete put consistent with it):
+   the argument's parent directory is protected and is what it was; the file arrives under files/ with its content *)
+Example destroys_nothing_premises_are_satisfiable :
+  wf (wfs (mkw (wof l0) None)) /\ wfd (mkw (wof l0) None) = None /\ accepts put_step put_init e_trace <> None /\
+  exists s', wrun (mkw (wof l0) None) e_trace s' /\ wfs (mkw (wof l0) None) e_u <> None /\
+    (forall src dst, In (Move src dst, RUnit) e_trace -> under src e_u = false /\ (e_u = dst -> wfs (mkw (wof l0) None) e_u <> Some NLink)) /\
+    wfs s' e_u = wfs (mkw (wof l0) None) e_u /\ wfs s' e_dst = wfs (mkw (wof l0) None) e_src /\ wfs s' e_src = None.
+Proof.
+  split; [exact a_tree|]. split; [reflexivity|]. split; [vm_compute; discriminate|].
+  destruct a_consistent_put as [s' [Hr [He _]]]. exists s'. split; [exact Hr|]. split; [vm_compute; discriminate|]. split.
+  - intros src dst Hin. repeat (destruct Hin as [Hin|Hin]; [try discriminate Hin|]); try contradiction.
+    inversion Hin; subst. split; [vm_compute; reflexivity|intros E; vm_compute in E; discriminate E].
+  - rewrite !He. vm_compute. auto.
+Qed.
 
 Example dot_spellings :
   should_skipped_by_specs ($"./") = true /\ should_skipped_by_specs ($"..//") = true /\ should_skipped_by_specs ($"d/.") = true
